@@ -123,10 +123,14 @@ PROPS = {
         "level_text": "Ok-path implications of the verifier-side reveal functions, stated modularly over the contract of "
                       "VectorCommitment::verify_many (recorded, arbitrary verdict) and an arbitrary functional hasher: "
                       "read_layer_queries performs exactly the commitment check on the revealed rows; a zero-layer "
-                      "FriVerifier::verify accepts only a remainder whose hash is the last commitment.",
+                      "FriVerifier::verify accepts only a remainder whose hash is the last commitment; the main verifier channel "
+                      "(read_queried_trace_states, read_constraint_evaluations) opens the digests of exactly the revealed main, "
+                      "auxiliary and composition rows against trace commitments 0 / 1 and the constraint commitment, and a "
+                      "failed opening rejects.",
         "level_note": "Bounded instances (2 positions / 1 query, domain 8, 2 remainder coefficients) over the real f64 field. "
                       "Trusted: mocks (hasher, coin, vector commitment, channel); verify_many's own contract is C19. The "
-                      "main verifier channel's trace/constraint row checks are covered by unit c03_verifier when present.",
+                      "channel unit uses 2 queried rows of fixed contents (symbolic commitments, positions and injected opening "
+                      "failures). NOT under contract: VerifierChannel::new (how the commitments and tables are taken out of the proof).",
     },
     "C09": {
         "level": "model_checking",
@@ -235,10 +239,13 @@ PROPS = {
         "verus": [],
         "level_text": "Trace::validate is run on the real generic code with a mock AIR over F_17 (periodic column, single "
                       "assertion, trace length 8) and compared with a direct evaluation written in the harness: accepts "
-                      "every satisfying trace, rejects every single-cell corruption at a non-exempt step; fill == init.",
-        "level_note": "BOUNDED: F_17, one AIR shape, length 8, no auxiliary segment, one exemption. BTreeMap in "
-                      "air/src/air/mod.rs replaced by the sorted-Vec model under cfg(kani). Fragment-based (concurrent) "
-                      "filling is not covered.",
+                      "every satisfying trace, rejects every single-cell corruption at a non-exempt step; a second mock AIR (three "
+                      "exemptions, periodic and sequence assertions) whose cells 6 and 7 are constrained only as the second step "
+                      "of a multi-step assertion: a violation there is rejected; fill == init.",
+        "level_note": "BOUNDED: F_17, two AIR shapes, length 8, no auxiliary segment. BTreeMap in "
+                      "air/src/air/mod.rs replaced by the sorted-Vec model under cfg(kani). NOT under contract: "
+                      "TraceTable::fragments / TraceTableFragment::fill (CBMC aborts on the vector of mutable column chunks), "
+                      "auxiliary-segment assertions and constraints.",
     },
     "C01": {
         "level": "other",
